@@ -1,7 +1,8 @@
-\* C20 exhaustive model: every history of up to 3 calls over the memo-relevant bases (contiguous arguments)
+\* C20 exhaustive model (quick): every history of up to 3 calls over 21 core bases (one call per mechanism);
+\* every 2-call history over ALL memo-relevant bases is explored by MemoMC_graph.cfg in both tiers
 CONSTANTS
   MaxDepth = 3
-  BaseSel = "memo"
+  BaseSel = "quickcore"
   LaySel = "C"
   ProjKeyMode = "full"
   DbetaKeyMode = "full"
